@@ -18,7 +18,7 @@ func init() {
 	Registry["C19"] = Spec{
 		Fn:          c19,
 		Level:       "exploration",
-		Rule:        "(a) totality: ColAuto.Infer, ColumnType.Conflicts/Base/Elem/normalisation and every inferable column's Infer on malformed strings (unbalanced/empty parentheses, missing or non-numeric parameters, unknown bases, nesting depth up to 10000, arbitrary bytes, splices of valid types) - no panic, bounded time; (b) soundness: grammar-generated well-formed types (every leaf, precisions 0..9, time zones, enum literals with spaces/escaped quotes/=/,/negative codes, decimals 1..76, FixedString sizes, nesting to depth 4, spacing variants): Infer errors or yields a column whose Type() does not conflict and which decodes a reference-encoded block of that type to the reference values; (c) relation: reflexive, symmetric over all ordered pairs of a type pool, documented equivalences compatible, different base types conflicting. Non-trivial = parameterised or nested type / malformed with a valid prefix; distinct = type strings and pairs",
+		Rule:        "(a) totality: ColAuto.Infer, ColumnType.Conflicts/Base/Elem/normalisation and every inferable column's Infer on malformed strings (unbalanced/empty parentheses, missing or non-numeric parameters, unknown bases, nesting depth up to 10000, arbitrary bytes, splices of valid types; plus, enumerated, every parameter string of length <= 2 over quote, double quote, parentheses, comma, space, =, backslash, 0, a, -, 3 and of length <= 3 over quotes / backslash / parentheses, for 18 parametric bases, bare and inside 6 wrappers) - no panic, bounded time; (b) soundness: grammar-generated well-formed types (every leaf, precisions 0..9, time zones, enum literals with spaces/escaped quotes/=/,/negative codes, decimals 1..76, FixedString sizes, nesting to depth 4, spacing variants): Infer errors or yields a column whose Type() does not conflict and which decodes a reference-encoded block of that type to the reference values; (c) relation: reflexive, symmetric over all ordered pairs of a type pool, documented equivalences compatible, different base types conflicting. Non-trivial = parameterised or nested type / malformed with a valid prefix; distinct = type strings and pairs",
 		Assumptions: []string{"reference compatibility relation written from the property statement and the repository's documented table (proto/column_test.go)", "system tz database present"},
 		MinDistinct: 500,
 	}
@@ -304,7 +304,7 @@ func c19(r *core.Run) {
 		start := time.Now()
 		if p := core.Recover(f); p != "" {
 			cls := "panic"
-			if strings.Contains(p, "stack") {
+			if strings.Contains(p, "stack overflow") || strings.Contains(p, "stack exceeds") {
 				cls = "stack-overflow"
 			}
 			r.Violation(key+":"+cls, p, cs)
@@ -313,15 +313,7 @@ func c19(r *core.Run) {
 			r.Inconclusive(fmt.Sprintf("%s took %s on %v", key, time.Since(start), cs))
 		}
 	}
-	// (a) totality on malformed strings
-	n := r.Pick(30000, 600000)
-	for k := 0; k < n; k++ {
-		ci++
-		if !r.Take(ci) {
-			continue
-		}
-		rng := r.Rand(ci, "bad")
-		s := genMalformed(rng)
+	checkTotal := func(ci int64, rng *rand.Rand, s string) {
 		if len(s) < 200 {
 			r.CaseLog(fmt.Sprintf("%d %q", ci, s))
 		} else {
@@ -358,8 +350,57 @@ func c19(r *core.Run) {
 		} {
 			timed(name, s, func() { _ = mk().Infer(ct) })
 		}
+	}
+	// (a) totality on malformed strings
+	n := r.Pick(30000, 600000)
+	for k := 0; k < n; k++ {
+		ci++
+		if !r.Take(ci) {
+			continue
+		}
+		rng := r.Rand(ci, "bad")
+		s := genMalformed(rng)
+		checkTotal(ci, rng, s)
 		if k%5000 == 0 {
 			r.Sample(map[string]any{"malformed": clipS(s)})
+		}
+	}
+	// (a2) every parameter string of length <= 2 (<= 3 over quotes, backslash and parentheses) for
+	// every parametric base, bare and inside the wrappers that forward Infer to their element
+	{
+		alpha := []string{"'", "\"", "(", ")", ",", " ", "=", "\\", "0", "a", "-", "3"}
+		params := []string{""}
+		for _, a := range alpha {
+			params = append(params, a)
+			for _, b := range alpha {
+				params = append(params, a+b)
+			}
+		}
+		for _, a := range []string{"'", "\\", "(", ")"} {
+			for _, b := range []string{"'", "\\", "(", ")"} {
+				for _, c := range []string{"'", "\\", "(", ")"} {
+					params = append(params, a+b+c)
+				}
+			}
+		}
+		bases := []string{"DateTime", "DateTime64", "DateTime64(3, ", "Enum8", "Enum16", "FixedString", "Decimal", "Decimal(9, ", "Decimal32", "Array", "Nullable", "LowCardinality", "Map", "Map(String, ", "Tuple", "Interval", "Nested", "Point"}
+		wraps := []string{"%s", "Nullable(%s)", "Array(%s)", "LowCardinality(%s)", "Array(Nullable(%s))", "Map(String, %s)", "Tuple(%s)"}
+		for bi, b := range bases {
+			ci++
+			if !r.Take(ci) {
+				continue
+			}
+			rng := r.Rand(ci, "enum-params")
+			for _, p := range params {
+				inner := b + "(" + p + ")"
+				if strings.HasSuffix(b, ", ") {
+					inner = b + p + ")"
+				}
+				for _, w := range wraps {
+					checkTotal(ci, rng, fmt.Sprintf(w, inner))
+				}
+			}
+			r.SetAdd("bases_with_enumerated_parameters", bases[bi])
 		}
 	}
 	// (b) soundness on well-formed types
